@@ -3,7 +3,7 @@
     non-vacuity examples and the statement of the bridge that is proved only in part. *)
 From Coq Require Import List NArith Bool.
 Import ListNotations.
-From LI Require Import Parser.Merge Parser.MergeProofs Parser.MergeCheck.
+From LI Require Import Parser.Merge Parser.MergeProofs Parser.MergeCheck Parser.MergeWf Parser.MergeSpecProofs Parser.MergeResolves.
 Open Scope N_scope.
 
 (** DefaultedLocales::default_of is the `inherits` walk: for ANY finite inherits map (chains,
@@ -77,17 +77,27 @@ Theorem C03_default_never_inherits : forall d l, map_get (dl_map d) l = None -> 
 Proof. exact default_of_unmapped. Qed.
 
 (** Bridge between the theorems and the executable predicate the correspondence evaluates:
-    full statement (not proved as stated: the plumbing of spec_C03 — entry lookup in the
-    flattened dump, count_in_sets — is not connected; its semantic content is C03_resolution,
-    C03_compute_partition and C03_compute_targets above). *)
-Definition C03_spec_statement : Prop :=
-  forall c, wf_case c = true -> spec_C03 c (model_result c) = true.
+    on every well-formed case ([wf_strict]: every namespace lists the default first, locale names
+    distinct, `inherits` only names listed locales and never the default as key, namespaces
+    distinct, no object of a file holds a key twice) the model's answer satisfies [spec_C03]. *)
+Theorem C03_spec : forall c, wf_strict c = true -> spec_C03 c (model_result c) = true.
+Proof. exact spec_C03_holds. Qed.
+
+(** the fallback rule as an inductive relation ([Resolves], Parser/MergeResolves.v: stop at the
+    first defining locale; the default when the walk ends or would revisit a locale) coincides
+    with the function [first_defined] of the specification as soon as the fuel covers the number
+    of locales *)
+Theorem C03_resolves_iff : forall (inh : loc -> option loc) (present : loc -> bool) (dflt : loc) (U : list loc),
+  (forall x y, inh x = Some y -> In y U) ->
+  forall F l r, In l U -> (length U <= F)%nat ->
+    (Resolves inh present dflt [] l r <-> r = first_defined inh present dflt F l).
+Proof. exact resolves_iff. Qed.
 
 (** non-vacuity: a 2-cycle de <-> fr below the default en; key 1 defined by fr only, key 2 by nobody *)
 Definition ex_files : list (loc * forest) :=
   [(2, FCons 1 (Leaf 10) (FCons 2 (Leaf 11) FNil)); (1, FNil); (3, FCons 1 (Leaf 12) FNil)].
 Definition ex_case : case := mk_case false [(1, 3); (3, 1)] [(None, ex_files)] IOther.
-Example C03_example_wf : wf_case ex_case = true.
+Example C03_example_wf : wf_strict ex_case = true.
 Proof. vm_compute. reflexivity. Qed.
 Example C03_example_spec : spec_C03 ex_case (model_result ex_case) = true.
 Proof. vm_compute. reflexivity. Qed.
